@@ -56,6 +56,7 @@ func runC03(c *Ctx, r *Report) {
 	r.Rule("C03.R3", "normal-mode output ends with exactly one newline: the outermost Statements.PrettyPrint ends with Println on every path and emits nothing after it at the top level")
 	r.Rule("C02.R2", "(shared) operator printers consult precedence: output that re-parses to a different tree is not a fixpoint")
 	r.Rule("C02.R5", "(shared) statement separation and the previous-sibling typestate")
+	r.Rule("C02.R6", "(shared) a value-less return ends its block (its printed form absorbs a following statement)")
 
 	reach := c.formatterReach()
 	if len(reach) < 80 {
@@ -196,7 +197,7 @@ func runC03(c *Ctx, r *Report) {
 	sub := NewReport("C02", r.Tier, c)
 	runC02(c, sub)
 	for _, o := range sub.Obls {
-		if o.Rule != "C02.R2" && o.Rule != "C02.R5" {
+		if o.Rule != "C02.R2" && o.Rule != "C02.R5" && o.Rule != "C02.R6" {
 			continue
 		}
 		if o.status == FAIL {
